@@ -19,13 +19,13 @@ LOG=$OUT/verification.log; : > $LOG
 MODDIR=$WT/$DEMODIR; while [ ! -f $MODDIR/go.mod ]; do MODDIR=$(dirname $MODDIR); done
 echo "== existing tests with the change ($PKGS)" >> $LOG
 ( cd $MODDIR && go test -vet=off -count=1 -ldflags=-checklinkname=0 $PKGS ) >> $LOG 2>&1; T_WITH=$?
-cp $DEMO $WT/$DEMODIR/zz_seed_demo_test.go
+mkdir -p $WT/$DEMODIR; cp $DEMO $WT/$DEMODIR/zz_seed_demo_test.go
 DEMOPKG=./$(realpath --relative-to=$MODDIR $WT/$DEMODIR)
 echo "== demo with the change" >> $LOG
-( cd $MODDIR && go test -vet=off -count=1 -ldflags=-checklinkname=0 -run 'Demo|Seed|Mutation|C[0-9][0-9]' $DEMOPKG ) >> $LOG 2>&1; D_WITH=$?
+( cd $MODDIR && go test -vet=off -count=1 -ldflags=-checklinkname=0 -run "${DEMO_RUN:-.}" $DEMOPKG ) >> $LOG 2>&1; D_WITH=$?
 ( cd $WT && git apply -R $SRC/patch.diff )
 echo "== demo without the change" >> $LOG
-( cd $MODDIR && go test -vet=off -count=1 -ldflags=-checklinkname=0 -run 'Demo|Seed|Mutation|C[0-9][0-9]' $DEMOPKG ) >> $LOG 2>&1; D_WITHOUT=$?
+( cd $MODDIR && go test -vet=off -count=1 -ldflags=-checklinkname=0 -run "${DEMO_RUN:-.}" $DEMOPKG ) >> $LOG 2>&1; D_WITHOUT=$?
 rm -f $WT/$DEMODIR/zz_seed_demo_test.go
 ( cd $WT && git apply $SRC/patch.diff )
 RES=""
